@@ -165,7 +165,9 @@ func prepare[Type any](opts Opts[Type]) (
 		return nil, nil, nil, err
 	}
 
-	if !common.IsDistributionFilled(strategic) {
+	// A divider may leave priorities to which it has given nothing without an entry at all
+	// (like Rate does when the handlers run out), so the entries must also be counted
+	if len(strategic) != len(priorities) || !common.IsDistributionFilled(strategic) {
 		return nil, nil, nil, ErrHandlersQuantityTooSmall
 	}
 
